@@ -209,6 +209,14 @@ class Gen:
             return False
         if "read -a" in sh and n != "a":
             return False                                   # `read -a` into an associative array: bash refuses, brush re-keys
+        if n in ("a", "m") and "+=" in sh and "(" not in sh:
+            return False                                   # scalar `+=` on an array appends to element 0: same defect
+        if "-g" in sh.split() and depth > 0:
+            return False                                   # declare_g_updates_local
+        if "]+=" in sh:
+            return False                                   # case_transform_on_element_append
+        if k == "readonly" and depth > 0 and "(" in sh:
+            return False                                   # bash quirk: `readonly v=(…)` on a local array inside a function empties it
         if k == "unset-elem":
             return False                                   # `unset 'v[0]'` on a scalar: bash unsets v, brush reports "not an array"
         if self.safe and re.search(r"\[-\d+\]", sh):
